@@ -34,6 +34,12 @@
 #include "LinearOp/CholeskySparse.hpp"
 #include "LinearOp/PrecisionOpMultiConditional.hpp"
 #include "LinearOp/PrecisionOpMultiConditionalCs.hpp"
+#include "LinearOp/PrecisionOpMulti.hpp"
+#include "LinearOp/PrecisionOpMultiMatrix.hpp"
+#include "LinearOp/ProjMultiMatrix.hpp"
+#include "LinearOp/MatrixSquareSymmetricSim.hpp"
+#include "LinearOp/SPDEOp.hpp"
+#include "LinearOp/SPDEOpMatrix.hpp"
 #include "API/SPDE.hpp"
 #include "API/SPDEParam.hpp"
 #include <memory>
@@ -44,10 +50,12 @@ using ref::LD;
 using ref::Mat;
 
 // Switches to steer the generator away from input classes with known defects (default: off, see final report)
-static const bool AVOID_OUTSIDE_GRID_POINTS = false; // turbo ProjMatrix: samples outside the rotated grid box
+// (all off by default; an environment variable of the same name, prefixed by C15_, switches one on for a development run)
+static const bool AVOID_OUTSIDE_GRID_POINTS = getenv("C15_AVOID_OUTSIDE_GRID_POINTS") != nullptr; // ProjMatrix: samples outside the grid / trailing outside samples
+static const bool AVOID_KRIGNEW_TARGET_WITHOUT_Z = getenv("C15_AVOID_KRIGNEW_TARGET_WITHOUT_Z") != nullptr; // krigingSPDENew aborts (Eigen assertion) when the target Db has no Z variable
 
-enum MeshKind { MK_TURBO = 0, MK_TURBO_MASK, MK_STD_EXT, MK_STD_FROM_TURBO, NMK };
-static const char* MKN[] = {"turbo", "turbo-mask", "std-ext", "std-from-turbo"};
+enum MeshKind { MK_TURBO = 0, MK_TURBO_MASK, MK_STD_EXT, MK_STD_FROM_TURBO, MK_TURBO_COVA, NMK };
+static const char* MKN[] = {"turbo", "turbo-mask", "std-ext", "std-from-turbo", "turbo-fromcova"};
 
 struct MeshCase
 {
@@ -58,6 +66,8 @@ struct MeshCase
   std::unique_ptr<MeshETurbo> turboTwin; // for MK_STD_FROM_TURBO: the turbo mesh it was copied from
   std::unique_ptr<DbGrid> grid;          // for MK_TURBO_MASK
   MeshMirror mm;
+  std::unique_ptr<Db> field;             // for MK_TURBO_COVA: the domain the mesh is derived from
+  int mcap = 0;                          // MK_TURBO_COVA: target number of cells per dimension
   double h = 1;      // typical cell size
   double extent = 1; // typical domain size
   std::string desc;
@@ -118,6 +128,27 @@ static MeshCase genMesh(Rng& r, Ctx& c)
   int targetNv = (int)std::lround(r.loguni(ndim == 1 ? 3 : (ndim == 2 ? 6 : 10), maxNv));
   if (ndim == 3) targetNv = std::min(targetNv, c.thorough() ? 1000 : 350); // 3-D stencils are wide
 
+  if (mc.kind == MK_TURBO_COVA)
+  {
+    // the mesh will be derived from the model (MeshETurbo::createFromCova: grid rotated like the anisotropy, cell = range / ratio,
+    // nbExt extension cells on every side): here only the domain; finished in finishCovaMesh() once the model exists
+    double Ld = r.loguni(0.5, 200.);
+    double off = r.coin(0.4) ? 0. : r.uni(-20, 20) * Ld;
+    int np = r.irange(4, 12);
+    std::vector<std::vector<double>> pts(np, std::vector<double>(ndim));
+    std::vector<double> len(ndim);
+    for (int d = 0; d < ndim; d++) len[d] = Ld * (r.coin() ? 1. : r.uni(0.4, 1.));
+    for (int i = 0; i < np; i++) for (int d = 0; d < ndim; d++) pts[i][d] = off + (i == 0 ? 0. : i == 1 ? len[d] : r.uni(0, len[d]));
+    VectorDouble tab(ndim * np);
+    VectorString names, locs;
+    for (int d = 0; d < ndim; d++) { names.push_back(fmt("x%d", d + 1)); locs.push_back(fmt("x%d", d + 1)); for (int i = 0; i < np; i++) tab[d * np + i] = pts[i][d]; }
+    mc.field.reset(Db::createFromSamples(np, ELoadBy::COLUMN, tab, names, locs, true));
+    mc.mcap   = ndim == 1 ? r.irange(3, 100) : ndim == 2 ? r.irange(2, 14) : r.irange(2, 3);
+    mc.h      = Ld / mc.mcap;
+    mc.extent = Ld;
+    mc.desc   = fmt("fromCova domain L=%.4g off=%.4g mcap=%d", Ld, off, mc.mcap);
+    return mc;
+  }
   if (mc.kind == MK_TURBO || mc.kind == MK_TURBO_MASK || mc.kind == MK_STD_FROM_TURBO)
   {
     VectorInt nx; VectorDouble dx, x0, angles;
@@ -354,6 +385,22 @@ static ModelCase genModel(Rng& r, const MeshCase& mc)
   return m;
 }
 
+static void finishCovaMesh(Rng& r, MeshCase& mc, const ModelCase& mo)
+{
+  int ndim = mc.ndim;
+  double rmin = INFINITY;
+  for (int d = 0; d < ndim; d++) rmin = std::min(rmin, mo.cova->getRange(d));
+  double ratio = rmin * mc.mcap / mc.extent * r.uni(0.5, 1.0); // cell = range / ratio >= extent / mcap in every direction
+  int nbExt    = ndim == 3 ? r.irange(0, 1) : r.irange(0, 3);
+  mc.mesh.reset(MeshETurbo::createFromCova(*mo.cova, mc.field.get(), ratio, nbExt, true, false, false));
+  if (!mc.mesh) throw SkipCase{"createFromCova-null"};
+  mc.polarized = true; // initFromCova always asks for the polarized (diamond) construction
+  mc.desc += fmt(" ratio=%.4g nbExt=%d", ratio, nbExt);
+  mc.mm = mirrorMesh(mc.mesh.get());
+  if (mc.mm.nv > 3000) throw SkipCase{"createFromCova-too-large"};
+  mc.h = mc.mm.hmin;
+}
+
 // ---------------------------------------------------------------------------------------------
 // comparison of a library vector with a long double reference under a component-wise round-off bound
 // returns max_i |got_i - want_i| / tol_i
@@ -481,6 +528,7 @@ static void checkProjection(Rng& r, Ctx& c, const MeshCase& mc, const AMesh* mes
 
   ProjData pd;
   auto addPoint = [&](int wantClass) {
+    if (AVOID_OUTSIDE_GRID_POINTS && (wantClass == PC_OUT_FAR || wantClass == PC_OUT_NEAR)) wantClass = PC_INSIDE;
     std::vector<double> p(ndim, 0.);
     int cls = wantClass;
     if (wantClass == PC_INSIDE)
@@ -573,8 +621,12 @@ static void checkProjection(Rng& r, Ctx& c, const MeshCase& mc, const AMesh* mes
   bool lastOut = false;
   for (int i = np - 1; i >= 0; i--) if (rowOf[i] >= 0) { lastOut = pd.pclass[i] == PC_OUT_FAR || pd.pclass[i] == PC_OUT_NEAR; break; }
   bool shapeOk = pm->getPointNumber() == nrows && pm->getApexNumber() == mm.nv;
-  c.truth("proj-shape", kb + (lastOut ? ":shape:last-sample-outside" : ":shape"), shapeOk,
-          fmt("rows=%d expected=%d cols=%d expected=%d", pm->getPointNumber(), nrows, pm->getApexNumber(), mm.nv));
+  {
+    std::string ks = kb + ":shape";
+    if (pm->getPointNumber() < nrows && lastOut && dynamic_cast<const MeshEStandard*>(mesh) != nullptr && pm->getApexNumber() == mm.nv)
+      ks = "C15:ProjMatrix:standard:rows-missing-when-last-samples-outside"; // diagnosed input class
+    c.truth("proj-shape", ks, shapeOk, fmt("rows=%d expected=%d cols=%d expected=%d", pm->getPointNumber(), nrows, pm->getApexNumber(), mm.nv));
+  }
   Sp A = mirror(pm.get());
   std::vector<std::vector<std::pair<int, double>>> rows(std::max(nrows, A.nr));
   for (size_t k = 0; k < A.v.size(); k++) rows[A.r[k]].push_back({A.c[k], A.v[k]});
@@ -585,50 +637,94 @@ static void checkProjection(Rng& r, Ctx& c, const MeshCase& mc, const AMesh* mes
   auto aff = [&](auto getx) { LD v = a0; for (int d = 0; d < ndim; d++) v += (LD)a[d] * ((LD)getx(d) - (LD)(0.5 * (lo[d] + hi[d]))) / (LD)L; return v; };
   const double tolA = 4 * tolW * (1 + asum) + 64 * EPS * (mm.coordMag / L + 1) * asum;
 
-  bool sawOutsideBox = false; // an earlier retained sample lies outside the bounding box of the mesh
-  for (int i = 0; i < np; i++)
+  // Row <-> sample association. Documented (MeshETurbo/MeshEStandard::resetProjMatrix): one row per active sample
+  // (with defined Z when rankZ >= 0), in Db order; a sample which belongs to no mesh keeps an empty row
+  // ("NF_T.force(nvalid, getNApices())"). The per-row relations are evaluated under that mapping M0. For turbo
+  // meshes a second mapping M1 (rows compacted over the samples which Grid::coordinateToIndicesInPlace reports
+  // outside the grid) is evaluated as a DIAGNOSIS only: if M1 explains the matrix and M0 does not, one failure with
+  // the key "rows-shifted-after-sample-outside-grid" is logged and the row relations are reported under M1, so that
+  // any other defect stays visible under its own key.
+  struct Rec { std::string o, k; bool ok; double err, tol; std::string d; };
+  auto evalRows = [&](const std::vector<int>& rmap, std::vector<Rec>& out) {
+    int nfail = 0;
+    auto add = [&](const std::string& o, const std::string& k, bool ok, double err, double tol, const std::string& d) {
+      out.push_back({o, k, ok, err, tol, d});
+      if (!ok) nfail++;
+    };
+    for (int i = 0; i < np; i++)
+    {
+      int row = rmap[i];
+      if (row < 0) continue;
+      int pc = pd.pclass[i];
+      if (pc == PC_AMBIG) { out.push_back({"", "skip", true, 0, 0, ""}); continue; }
+      static const std::vector<std::pair<int, double>> none;
+      const auto& rw = row < (int)rows.size() ? rows[row] : none;
+      std::string kc = kb + ":" + PCN[pc];
+      if (pc == PC_OUT_FAR || pc == PC_OUT_NEAR)
+      {
+        add("proj-outside-empty", kc + ":row-not-empty", rw.empty(), rw.empty() ? 0 : 1, 0, fmt("sample %d row %d has %zu entries", i, row, rw.size()));
+        continue;
+      }
+      bool mustExist = pc != PC_HULL; // on the hull the property does not decide; validity is checked if a row exists
+      if (rw.empty())
+      {
+        if (mustExist) add("proj-inside-nonempty", kc + ":row-empty", false, 1, 0, fmt("sample %d row %d p=%s", i, row, jvec(pd.pts[i]).c_str()));
+        continue;
+      }
+      if (mustExist) add("proj-inside-nonempty", kc + ":row-empty", true, 0, 0, "");
+      LD sw = 0, sa = 0, wmin = INFINITY;
+      bool idxOk = true;
+      for (auto& cw : rw)
+      {
+        if (cw.first < 0 || cw.first >= mm.nv) { idxOk = false; continue; }
+        sw += cw.second;
+        wmin = std::min(wmin, (LD)cw.second);
+        int v = cw.first;
+        sa += (LD)cw.second * aff([&](int d) { return mm.x(v, d); });
+      }
+      LD want = aff([&](int d) { return pd.pts[i][d]; });
+      double tw = tolW, ta = tolA;
+      // library acceptance thresholds on the hull: EPSILON5 (AMesh::_weightsInMesh) / EPSILON6 (MeshETurbo::_addWeights)
+      if (pc == PC_HULL) { tw = std::max(tw, 2e-5); ta = std::max(ta, 2e-5 * (1 + asum) * (mm.hmax / L + 1)); }
+      add("proj-count", kc + ":too-many-entries", idxOk && (int)rw.size() <= nc, 0, 0, fmt("%zu entries", rw.size()));
+      add("proj-nonneg", kc + ":negative-weight", wmin >= -tw, (double)std::max((LD)0, -wmin), tw, fmt("sample %d wmin=%.3g", i, (double)wmin));
+      add("proj-sum1", kc + ":sum-not-1", std::fabs((double)(sw - 1)) <= tw, std::fabs((double)(sw - 1)), tw, fmt("sample %d", i));
+      add("proj-affine", kc + ":affine-not-reproduced", std::fabs((double)(sa - want)) <= ta, std::fabs((double)(sa - want)), ta,
+          fmt("sample %d got=%.15g want=%.15g p=%s", i, (double)sa, (double)want, jvec(pd.pts[i]).c_str()));
+    }
+    return nfail;
+  };
+  std::vector<Rec> rec0, rec1;
+  int f0 = evalRows(rowOf, rec0);
+  const std::vector<Rec>* use = &rec0;
+  const MeshETurbo* asTurbo = dynamic_cast<const MeshETurbo*>(mesh);
+  if (f0 > 0 && asTurbo != nullptr)
   {
-    int row = rowOf[i];
-    if (row < 0) continue;
-    int pc = pd.pclass[i];
-    std::string kshift = (sawOutsideBox && (mc.kind == MK_TURBO || mc.kind == MK_TURBO_MASK)) ? ":after-sample-outside-grid" : "";
-    if (pc == PC_OUT_FAR) sawOutsideBox = true;
-    if (pc == PC_OUT_NEAR)
-      for (int d = 0; d < ndim; d++) if (pd.pts[i][d] < lo[d] || pd.pts[i][d] > hi[d]) sawOutsideBox = true;
-    if (pc == PC_AMBIG) { c.skip("proj:ambiguous-point"); continue; }
-    const auto& rw = row < (int)rows.size() ? rows[row] : std::vector<std::pair<int, double>>();
-    std::string kc = kb + ":" + PCN[pc] + kshift;
-    if (pc == PC_OUT_FAR || pc == PC_OUT_NEAR)
+    std::vector<int> rowCompact(np, -1);
+    int k = 0, nOutGrid = 0;
+    VectorInt indg(ndim);
+    for (int i = 0; i < np; i++)
     {
-      c.truth("proj-outside-empty", kc + ":row-not-empty", rw.empty(), fmt("sample %d row %d has %zu entries", i, row, rw.size()));
-      continue;
+      if (rowOf[i] < 0) continue;
+      if (asTurbo->getGrid().coordinateToIndicesInPlace(VD(pd.pts[i]), indg) != 0) { nOutGrid++; continue; }
+      rowCompact[i] = k++;
     }
-    bool mustExist = pc != PC_HULL; // on the hull the property does not decide; validity is checked if a row exists
-    if (rw.empty())
+    if (nOutGrid > 0)
     {
-      if (mustExist) c.truth("proj-inside-nonempty", kc + ":row-empty", false, fmt("sample %d row %d p=%s", i, row, jvec(pd.pts[i]).c_str()));
-      else c.probe("proj.hull.empty");
-      continue;
+      int f1 = evalRows(rowCompact, rec1);
+      if (f1 < f0)
+      {
+        c.truth("proj-row-alignment", "C15:ProjMatrix:turbo:rows-shifted-after-sample-outside-grid", false,
+                fmt("%d retained samples outside the grid; %d row relations fail under the documented row=sample mapping, %d under the compacted one", nOutGrid, f0, f1));
+        use = &rec1;
+      }
     }
-    if (mustExist) c.truth("proj-inside-nonempty", kc + ":row-empty", true);
-    LD sw = 0, sa = 0, wmin = INFINITY;
-    bool idxOk = true;
-    for (auto& cw : rw)
-    {
-      if (cw.first < 0 || cw.first >= mm.nv) { idxOk = false; continue; }
-      sw += cw.second;
-      wmin = std::min(wmin, (LD)cw.second);
-      int v = cw.first;
-      sa += (LD)cw.second * aff([&](int d) { return mm.x(v, d); });
-    }
-    LD want = aff([&](int d) { return pd.pts[i][d]; });
-    double tw = tolW, ta = tolA;
-    if (pc == PC_HULL) { tw = std::max(tw, 2e-5); ta = std::max(ta, 2e-5 * (1 + asum) * (mm.hmax / L + 1)); } // library acceptance eps (EPSILON5 / EPSILON6)
-    c.truth("proj-count", kc + ":too-many-entries", idxOk && (int)rw.size() <= nc, fmt("%zu entries", rw.size()));
-    c.check("proj-nonneg", kc + ":negative-weight", wmin >= -tw, (double)std::max((LD)0, -wmin), tw, fmt("sample %d wmin=%.3g", i, (double)wmin));
-    c.check("proj-sum1", kc + ":sum-not-1", std::fabs((double)(sw - 1)) <= tw, std::fabs((double)(sw - 1)), tw, fmt("sample %d", i));
-    c.check("proj-affine", kc + ":affine-not-reproduced", std::fabs((double)(sa - want)) <= ta, std::fabs((double)(sa - want)), ta,
-            fmt("sample %d got=%.15g want=%.15g p=%s", i, (double)sa, (double)want, jvec(pd.pts[i]).c_str()));
+  }
+  if (use == &rec0) c.truth("proj-row-alignment", "C15:ProjMatrix:rows-vs-samples", true);
+  for (const Rec& q : *use)
+  {
+    if (q.k == "skip") { c.skip("proj:ambiguous-point"); continue; }
+    c.check(q.o, q.k, q.ok, q.err, q.tol, q.d);
   }
 
   // the projection as an operator: mesh2point / point2mesh vs own products
@@ -669,6 +765,550 @@ static void checkProjection(Rng& r, Ctx& c, const MeshCase& mc, const AMesh* mes
   }
 }
 
+// ---------------------------------------------------------------------------------------------
+// oracles (d) and (e): conditional precision, solves, kriging and likelihood in the two modes
+// ---------------------------------------------------------------------------------------------
+static std::unique_ptr<Db> makeDb(int ndim, const std::vector<std::vector<double>>& pts, const std::vector<double>* z,
+                                  const std::vector<int>* active = nullptr)
+{
+  int np = (int)pts.size();
+  VectorDouble tab((ndim + (z ? 1 : 0)) * np);
+  for (int i = 0; i < np; i++)
+  {
+    for (int d = 0; d < ndim; d++) tab[d * np + i] = pts[i][d];
+    if (z) tab[ndim * np + i] = (*z)[i];
+  }
+  VectorString names, locs;
+  for (int d = 0; d < ndim; d++) { names.push_back(fmt("x%d", d + 1)); locs.push_back(fmt("x%d", d + 1)); }
+  if (z) { names.push_back("z"); locs.push_back("z1"); }
+  std::unique_ptr<Db> db(Db::createFromSamples(np, ELoadBy::COLUMN, tab, names, locs, true));
+  if (db && active)
+  {
+    VectorDouble sel(np);
+    for (int i = 0; i < np; i++) sel[i] = (*active)[i];
+    db->addSelection(sel, "sel");
+  }
+  return db;
+}
+// dense symmetric positive definite solve helpers on top of ref::Chol
+static std::vector<LD> cholSolve(const ref::Chol& ch, std::vector<LD> b)
+{
+  int n = ch.L.nr;
+  for (int i = 0; i < n; i++) { for (int j = 0; j < i; j++) b[i] -= ch.L(i, j) * b[j]; b[i] /= ch.L(i, i); }
+  for (int i = n - 1; i >= 0; i--) { for (int j = i + 1; j < n; j++) b[i] -= ch.L(j, i) * b[j]; b[i] /= ch.L(i, i); }
+  return b;
+}
+
+struct Block
+{
+  PrecisionOpCs* qcs;
+  PrecisionOp* qmf;
+  const Sp* Q;
+  const ModelCase* mo;
+};
+
+static void checkConditional(Rng& r, Ctx& c, const MeshCase& mc, const std::vector<Block>& blk, const std::string& cls0)
+{
+  const MeshMirror& mm = mc.mm;
+  const int ndim = mm.ndim, n = mm.nv, nc = mm.nc;
+  const int K = (int)blk.size(), N = K * n;
+  const ModelCase& mo = *blk[0].mo;
+  const std::string cls = cls0 + fmt(":ncov=%d", K);
+  double totalSill = 0;
+  int degMax = 0;
+  bool anyMarkov = false;
+  for (auto& b : blk) { totalSill += b.mo->sill; degMax = std::max(degMax, b.mo->degree); anyMarkov = anyMarkov || b.mo->markov; }
+  std::vector<double> lo(ndim, INFINITY), hi(ndim, -INFINITY);
+  for (int i = 0; i < n; i++) for (int d = 0; d < ndim; d++) { lo[d] = std::min(lo[d], mm.x(i, d)); hi[d] = std::max(hi[d], mm.x(i, d)); }
+  double L = 0;
+  for (int d = 0; d < ndim; d++) L = std::max(L, hi[d] - lo[d]);
+  auto insidePoint = [&]() {
+    std::vector<double> p(ndim, 0.), w(nc);
+    int e = r.irange(0, mm.ne - 1);
+    double sw = 0;
+    for (auto& v : w) { v = 0.02 + r.u01(); sw += v; }
+    for (int k = 0; k < nc; k++) for (int d = 0; d < ndim; d++) p[d] += w[k] / sw * mm.x(mm.apex(e, k), d);
+    return p;
+  };
+  // ---- data: inside / on a vertex / outside the bounding box (never outside for turbo meshes: the row-shift defect of (c)
+  //      would only make both modes equally wrong, it is not what is decided here) -------------------------------------
+  int nd = r.irange(1, c.thorough() ? 60 : 30);
+  std::vector<std::vector<double>> dpts;
+  bool turbo = dynamic_cast<const MeshETurbo*>(mc.mesh.get()) != nullptr;
+  int nOutData = 0;
+  for (int i = 0; i < nd; i++)
+  {
+    double u = r.u01();
+    if (u < 0.1)
+    {
+      int v = r.irange(0, n - 1);
+      std::vector<double> p(ndim);
+      for (int d = 0; d < ndim; d++) p[d] = mm.x(v, d);
+      dpts.push_back(p);
+    }
+    else if (u < 0.2 && !turbo && !AVOID_OUTSIDE_GRID_POINTS)
+    {
+      std::vector<double> p = insidePoint();
+      int d0 = r.irange(0, ndim - 1);
+      p[d0] = hi[d0] + L * r.uni(0.2, 2.);
+      dpts.push_back(p);
+      nOutData++;
+    }
+    else dpts.push_back(insidePoint());
+  }
+  if (nOutData > 0) dpts.back() = insidePoint(); // keep the last sample inside (MeshEStandard drops trailing empty rows: see (c))
+  int zclass = r.irange(0, 2); // data magnitude classes: the iterative solver's stopping rule is not scale invariant
+  double zscale = std::sqrt(totalSill) * (zclass == 0 ? r.loguni(1e-4, 1e-2) : zclass == 1 ? r.uni(0.5, 2.) : r.loguni(1e2, 1e4));
+  std::vector<double> z(nd);
+  double zmean = r.coin(0.5) ? 0. : r.uni(-3, 3);
+  for (auto& v : z) v = zscale * (zmean + r.normal());
+  // the Db given to the library may carry extra samples which must be ignored: masked by the selection, or with an undefined Z
+  std::unique_ptr<Db> dbin;
+  int extras = r.coin(0.35) ? r.irange(1, 6) : 0;
+  c.probe(extras ? "cond.db-with-masked/undefined-samples" : "cond.db-plain");
+  if (extras == 0) dbin = makeDb(ndim, dpts, &z);
+  else
+  {
+    std::vector<std::vector<double>> allp;
+    std::vector<double> allz;
+    std::vector<int> act;
+    int placed = 0;
+    bool anyMasked = false;
+    for (int i = 0; i <= nd; i++)
+    {
+      // insert extras at random positions (never after the last genuine sample: see the standard-mesh row defect of (c))
+      while (placed < extras && (i == nd ? false : r.coin(0.3)))
+      {
+        bool masked = r.coin();
+        allp.push_back(insidePoint());
+        allz.push_back(masked ? zscale * r.normal() * 50 : TEST);
+        act.push_back(masked ? 0 : 1);
+        anyMasked = anyMasked || masked;
+        placed++;
+      }
+      if (i < nd) { allp.push_back(dpts[i]); allz.push_back(z[i]); act.push_back(1); }
+    }
+    dbin = makeDb(ndim, allp, &allz, anyMasked ? &act : nullptr);
+  }
+  // nugget: none / above both API's floors (sigma2 = nugget) / below the floor (krigingSPDE: sigma2 = 0.01 total sill)
+  int nugClass = r.irange(0, 3);
+  double nug = nugClass <= 1 ? 0. : nugClass == 2 ? totalSill * r.loguni(0.02, 1.) : totalSill * r.loguni(1e-3, 5e-3);
+  double sigma2 = std::max(nug, 1e-2 * totalSill); // SPDE::_init: MAX(_nugget, params.getEpsNugget() * totalSill), EpsNugget = EPSILON2
+  std::string kcls = cls + fmt(":nug=%d", nug > 0 ? 1 : 0);
+  std::unique_ptr<Model> model(mo.model->clone());
+  for (int k = 1; k < K; k++) model->addCov(blk[k].mo->cova);
+  if (nug > 0) model->addCovFromParam(ECov::NUGGET, 0., nug);
+  c.puts("cond", fmt("ncov=%d nd=%d zscale=%.3g nug=%.3g sigma2=%.3g extras=%d", K, nd, zscale, nug, sigma2, extras));
+
+  ProjMatrix proj(dbin.get(), mc.mesh.get(), 0, false);
+  if (!c.truth("cond-proj-shape", "C15:cond:proj-shape:" + cls, proj.getPointNumber() == nd && proj.getApexNumber() == n,
+               fmt("rows=%d nd=%d", proj.getPointNumber(), nd)))
+    return;
+  Sp P = mirror(&proj);
+  // A = blockdiag(Q_1..Q_K) + [P .. P]' D^-1 [P .. P]   on x = (x_1; ..; x_K)
+  // (doc of PrecisionOpMultiConditional::_evalDirect: "diag(Q1,...,Qncova) x + 1/nugget [A1,...,Ancova]^t [A1,...,Ancova] x")
+  auto applyA = [&](const std::vector<LD>& x, bool absval) {
+    std::vector<LD> y(N, 0), t(nd, 0);
+    for (int k = 0; k < K; k++)
+    {
+      std::vector<LD> xk(x.begin() + (size_t)k * n, x.begin() + (size_t)(k + 1) * n);
+      std::vector<LD> qk = mulv(*blk[k].Q, xk, false, absval), pk = mulv(P, xk, false, absval);
+      for (int i = 0; i < n; i++) y[(size_t)k * n + i] = qk[i];
+      for (int s = 0; s < nd; s++) t[s] += pk[s];
+    }
+    for (auto& v : t) v /= (LD)sigma2;
+    std::vector<LD> u = mulv(P, t, true, absval);
+    for (int k = 0; k < K; k++) for (int i = 0; i < n; i++) y[(size_t)k * n + i] += u[i];
+    return y;
+  };
+  auto flat = [&](const std::vector<std::vector<double>>& v) {
+    std::vector<double> o;
+    for (auto& e : v) o.insert(o.end(), e.begin(), e.end());
+    return o;
+  };
+  // own right-hand side b = (P' (z / sigma2)) repeated for every structure
+  std::vector<LD> zs(nd), zsa(nd);
+  for (int i = 0; i < nd; i++) { zs[i] = (LD)z[i] / (LD)sigma2; zsa[i] = std::fabs(zs[i]); }
+  std::vector<LD> b1 = mulv(P, zs, true), bm1 = mulv(P, zsa, true, true), bref, bmag;
+  for (int k = 0; k < K; k++) { bref.insert(bref.end(), b1.begin(), b1.end()); bmag.insert(bmag.end(), bm1.begin(), bm1.end()); }
+  double bnorm = (double)norm2(bref);
+  double bnormBlocks = K * (double)norm2(b1); // what ALinearOpMulti uses as 'nb': the SUM of the block norms
+
+  // ---- the two conditional operators ---------------------------------------------------------------
+  PrecisionOpMultiConditional pcg;
+  PrecisionOpMultiConditionalCs pch;
+  VectorDouble var(nd, sigma2);
+  bool okb = true;
+  for (int k = 0; k < K; k++) okb = okb && pcg.push_back(blk[k].qmf, &proj) == 0 && pch.push_back(blk[k].qcs, &proj) == 0;
+  if (!c.truth("cond-build", "C15:cond:push_back:" + cls, okb)) return;
+  pcg.setVarianceDataVector(var);
+  pch.setVarianceDataVector(var);
+  pch.makeReady();
+  std::vector<std::vector<double>> rhs1 = pcg.computeRhs(z), rhs2 = pch.computeRhs(z);
+  {
+    double q1 = (int)rhs1.size() == K ? ratioVec(flat(rhs1), bref, bmag, 16) : INFINITY;
+    double q2 = (int)rhs2.size() == K ? ratioVec(flat(rhs2), bref, bmag, 16) : INFINITY;
+    c.check("cond-rhs", "C15:cond:computeRhs:" + cls, q1 <= 1 && q2 <= 1, std::max(q1, q2), 1);
+    if (!(q1 <= 1 && q2 <= 1)) return;
+  }
+  const double cfA = 64. * (degMax + 2) * 20;
+  // evalDirect of the conditional operator (matrix-free form) vs own A x
+  {
+    std::vector<std::vector<double>> xin(K, std::vector<double>(n)), yout(K, std::vector<double>(n, 0.));
+    for (auto& e : xin) for (auto& v : e) v = r.normal();
+    pcg.evalDirect(xin, yout);
+    std::vector<LD> xl = toLD(flat(xin)), xa(N);
+    for (int i = 0; i < N; i++) xa[i] = std::fabs(xl[i]);
+    std::vector<LD> want = applyA(xl, false), mag = applyA(xa, true);
+    double q = ratioVec(flat(yout), want, mag, cfA);
+    c.check("cond-evalDirect", "C15:cond:evalDirect:" + cls, q <= 1, q, 1);
+  }
+  // solves
+  std::vector<std::vector<double>> xcgv(K, std::vector<double>(n, 0.)), xchv(K, std::vector<double>(n, 0.));
+  pch.evalInverse(rhs2, xchv);
+  pcg.evalInverse(rhs1, xcgv);
+  std::vector<double> xch = flat(xchv), xcg = flat(xcgv);
+  auto residual = [&](const std::vector<double>& x, LD* rn2, LD* magInf, LD* rInf) {
+    std::vector<LD> xl = toLD(x), xa(N);
+    for (int i = 0; i < N; i++) xa[i] = std::fabs(xl[i]);
+    std::vector<LD> ax = applyA(xl, false), mag = applyA(xa, true);
+    LD s = 0, mi = 0, ri = 0;
+    for (int i = 0; i < N; i++)
+    {
+      LD d = ax[i] - bref[i];
+      s += d * d;
+      ri = std::max(ri, std::fabs(d));
+      mi = std::max(mi, mag[i] + std::fabs(bref[i]));
+    }
+    *rn2 = s; *magInf = mi; *rInf = ri;
+  };
+  LD r2ch, mch, rich, r2cg, mcg, ricg;
+  residual(xch, &r2ch, &mch, &rich);
+  residual(xcg, &r2cg, &mcg, &ricg);
+  {
+    double q = (double)(rich / (64. * N * EPS * mch + 1e-300L));
+    c.check("solve-residual-chol", "C15:PrecisionOpMultiConditionalCs::evalInverse:residual:" + kcls, q <= 1, q, 1);
+  }
+  const double CGEPS = 1e-8; // ALinearOpMulti default eps (EPSILON8); SPDE never changes it
+  // cheap upper bound of cond(A): lambda_max <= ||A||_1 ; lambda_min >= min_k lambda_min(Q_k) >= min_k coef_k[0] * min(lambda_ki^2)
+  // (Q = Lambda P(S) Lambda, S positive semi-definite, polynomial coefficients >= 0 for every model generated here)
+  double kappaUb;
+  {
+    std::vector<LD> ones(nd, 1 / (LD)sigma2), pcol = mulv(P, ones, true, true); // column sums of |P|'D^-1 (row sums of |P| are <= 1)
+    LD a1 = 0;
+    double lminQ = INFINITY;
+    for (int k = 0; k < K; k++)
+    {
+      std::vector<LD> colsum(n, 0);
+      const Sp& Q = *blk[k].Q;
+      for (size_t e = 0; e < Q.v.size(); e++) colsum[Q.c[e]] += std::fabs((LD)Q.v[e]);
+      for (int i = 0; i < n; i++) a1 = std::max(a1, colsum[i] + K * pcol[i]);
+      double lmin2 = INFINITY;
+      for (double v : blk[k].qmf->getShiftOp()->getLambdas().getVector()) lmin2 = std::min(lmin2, v * v);
+      lminQ = std::min(lminQ, blk[k].mo->coef[0] * lmin2);
+    }
+    kappaUb = (double)a1 / lminQ;
+  }
+  c.putn("kappaUb", kappaUb);
+  std::string bcls = bnorm < 1 ? "rhs-norm<1" : "rhs-norm>=1";
+  bool cgRuleOk = false;
+  if (!(bnorm > 0)) c.skip("cond:zero-rhs");
+  else if (kappaUb > 1e9) c.skip("cond:cg-illcond(kappaUb>1e9)"); // DESIGN 5.3: ill-conditioned systems are excluded
+  else
+  {
+    // Which tolerance the iterative solver promises is not documented. Two readings are accepted here, the solve passes if
+    // EITHER holds for the TRUE residual r = b - A x (own products):
+    //  (A) the rule as coded in ALinearOpMulti::evalInverse: <r,r> / sum_blocks ||b_i|| <= eps (eps = EPSILON8), slack 4 for the
+    //      drift between recurrence and true residual + round-off;
+    //  (B) the scale-free form of the property: ||r|| <= sqrt(eps) ||b||, slack 4.
+    // (A) is not scale invariant: with ||b|| << 1 it allows ||r||/||b|| >> 1e-4; counted by the probe 'cg.ruleA-only' (see report).
+    double ownrule = (double)(r2cg / (LD)bnormBlocks);
+    double roundoff = (double)(64. * N * EPS * mcg);
+    double rel = (double)(std::sqrt(r2cg) / (LD)bnorm);
+    cgRuleOk = ownrule <= 4 * CGEPS + roundoff * roundoff / bnormBlocks;
+    bool relOk = rel <= 4 * std::sqrt(CGEPS) + roundoff / bnorm;
+    if (cgRuleOk && !relOk) c.probe("cg.ruleA-only(rel-residual>4e-4)");
+    if (!cgRuleOk && relOk) c.probe("cg.ruleB-only");
+    std::string key = "C15:PrecisionOpMultiConditional::evalInverse:cg-residual:" + bcls + ":" + kcls;
+    std::string diag;
+    if (!cgRuleOk && !relOk)
+    { // diagnosis: does the same solver on the same system converge when allowed more than the default 1000 iterations ?
+      PrecisionOpMultiConditional p2;
+      for (int k = 0; k < K; k++) p2.push_back(blk[k].qmf, &proj);
+      p2.setVarianceDataVector(var);
+      p2.setNIterMax(50000);
+      std::vector<std::vector<double>> x2(K, std::vector<double>(n, 0.));
+      p2.evalInverse(rhs1, x2);
+      LD r22, m2, ri2;
+      residual(flat(x2), &r22, &m2, &ri2);
+      bool conv = (double)(r22 / (LD)bnormBlocks) <= 4 * CGEPS + roundoff * roundoff / bnormBlocks;
+      if (conv) key = "C15:ALinearOpMulti::evalInverse:unconverged-at-default-nitermax-returned-silently";
+      diag = fmt(" ; with nitermax=50000: ||r||=%.3g %s", (double)std::sqrt(r22), conv ? "(converged)" : "(still not converged)");
+    }
+    c.check("solve-residual-cg", key, cgRuleOk || relOk, std::min(ownrule / (4 * CGEPS), rel / (4 * std::sqrt(CGEPS))), 1,
+            fmt("||r||=%.3g ||b||=%.3g ||r||/||b||=%.3g <r,r>/sum||b_k||=%.3g kappaUb=%.3g n=%d zscale=%.3g%s", (double)std::sqrt(r2cg), bnorm, rel, ownrule, kappaUb, N,
+                zscale, diag.c_str()));
+  }
+
+  // ---- the operators behind krigingSPDENew: SPDEOp (matrix-free) and SPDEOpMatrix apply Q + P' N P  -------------
+  // (doc of SPDEOp::_addToDestImpl: "'outv' = (_Q + _Proj' * _invNoise * Proj) * 'inv'"); N = buildInvNugget = diag(1/sigma2)
+  // One structure only: ProjMultiMatrix::createFromDbAndMeshes accepts 1 mesh or one per VARIABLE, PrecisionOpMulti one per structure.
+  bool spdeOpOk = false;
+  bool newApi = K == 1 && !anyMarkov && nugClass != 3;
+  if (newApi)
+  {
+    const Sp& Q = *blk[0].Q;
+    VectorMeshes meshes = {mc.mesh.get()};
+    std::unique_ptr<MatrixSparse> invnoise(buildInvNugget(dbin.get(), model.get()));
+    bool nOk = invnoise != nullptr && invnoise->getNRows() == nd && invnoise->getNCols() == nd;
+    if (nOk)
+    {
+      Sp Nn = mirror(invnoise.get());
+      for (size_t k = 0; k < Nn.v.size(); k++)
+        if (Nn.r[k] != Nn.c[k] || std::fabs(Nn.v[k] * sigma2 - 1) > 1e-12) nOk = false;
+      if ((int)Nn.v.size() != nd) nOk = false;
+    }
+    if (c.truth("invnugget", "C15:buildInvNugget:not-diag(1/sigma2):" + kcls, nOk))
+    {
+      ProjMultiMatrix AM = ProjMultiMatrix::createFromDbAndMeshes(dbin.get(), meshes);
+      PrecisionOpMulti Qop(model.get(), meshes);
+      PrecisionOpMultiMatrix Qmat(model.get(), meshes);
+      MatrixSquareSymmetricSim invnoisep(invnoise.get());
+      SPDEOp opFree(&Qop, &AM, &invnoisep);
+      SPDEOpMatrix opMat(&Qmat, &AM, invnoise.get());
+      std::vector<double> x(n);
+      for (auto& v : x) v = r.normal();
+      std::vector<LD> xl = toLD(x), xa(n);
+      for (int i = 0; i < n; i++) xa[i] = std::fabs(xl[i]);
+      std::vector<LD> want = applyA(xl, false), mag = applyA(xa, true), qx = mulv(Q, xl);
+      if (opMat.getSize() == n)
+      {
+        VectorDouble y = opMat.evalDirect(VD(x));
+        double q = ratioVec(SV(y), want, mag, cfA);
+        c.check("spdeop-evalDirect", "C15:SPDEOpMatrix:evalDirect:" + kcls, q <= 1, q, 1);
+      }
+      else c.truth("spdeop-evalDirect", "C15:SPDEOpMatrix:size:" + kcls, false);
+      if (opFree.getSize() == n)
+      {
+        VectorDouble y = opFree.evalDirect(VD(x));
+        int w = 0;
+        double q = ratioVec(SV(y), want, mag, cfA, &w);
+        std::string key = "C15:SPDEOp:evalDirect:" + kcls;
+        if (!(q <= 1) && ratioVec(SV(y), qx, mag, cfA) <= 1) key = "C15:SPDEOp::_addToDestImpl:data-term-lost(PrecisionOp::addToDest-overwrites)";
+        spdeOpOk = c.check("spdeop-evalDirect", key, q <= 1, q, 1, q <= 1 ? "" : fmt("i=%d y=%.10g (Q+P'NP)x=%.10g Qx=%.10g", w, y[w], (double)want[w], (double)qx[w]));
+      }
+      else c.truth("spdeop-evalDirect", "C15:SPDEOp:size:" + kcls, false);
+    }
+  }
+
+  // ---- dense reference (small systems): x* = A^-1 b, ||A^-1||, log det, quadratic form --------------------
+  const int NK = c.thorough() ? 220 : 130;
+  if (N > NK) { c.skip("cond:no-dense-reference(N>NK)"); return; }
+  Mat A(N, N);
+  {
+    Mat Pd = dense(P);
+    Mat PtP(n, n);
+    for (int s = 0; s < nd; s++)
+      for (int i = 0; i < n; i++)
+      {
+        LD psi = Pd(s, i);
+        if (psi == 0) continue;
+        for (int j = 0; j < n; j++) PtP(i, j) += psi * Pd(s, j) / (LD)sigma2;
+      }
+    for (int k = 0; k < K; k++)
+    {
+      Mat Qk = dense(*blk[k].Q);
+      for (int l = 0; l < K; l++)
+        for (int i = 0; i < n; i++)
+          for (int j = 0; j < n; j++) A(k * n + i, l * n + j) = PtP(i, j) + (k == l ? Qk(i, j) : (LD)0);
+    }
+  }
+  for (int i = 0; i < N; i++) for (int j = 0; j < i; j++) { LD v = 0.5 * (A(i, j) + A(j, i)); A(i, j) = A(j, i) = v; }
+  ref::Chol chA(A);
+  if (!chA.ok) { c.truth("cond-A-posdef", "C15:cond:A-not-posdef:" + cls, false); return; }
+  std::vector<LD> xs = cholSolve(chA, bref);
+  // ||A^-1||_2 <= ||A^-1||_1 (symmetric): columns of the inverse
+  LD ainv1 = 0;
+  for (int j = 0; j < N; j++)
+  {
+    std::vector<LD> e(N, 0);
+    e[j] = 1;
+    std::vector<LD> col = cholSolve(chA, e);
+    LD sabs = 0;
+    for (LD v : col) sabs += std::fabs(v);
+    ainv1 = std::max(ainv1, sabs);
+  }
+  LD anorm = A.norm1();
+  double kappa = (double)(anorm * ainv1);
+  if (kappa > 1e11) { c.skip("cond:illcond"); return; }
+  LD xsInf = normInf(xs);
+  // Cholesky mode vs reference: forward error c n eps kappa ||x*||
+  {
+    double e = 0;
+    for (int i = 0; i < N; i++) e = std::max(e, std::fabs((double)((LD)xch[i] - xs[i])));
+    double tol = 64. * N * EPS * kappa * (double)xsInf + 1e-300;
+    c.check("cond-chol-vs-ref", "C15:cond:chol-solution-vs-reference:" + kcls, e <= tol, e, tol);
+  }
+  // CG mode vs reference: ||x - x*|| <= ||A^-1|| ||r||, with ||r|| bounded by the solver's rule sqrt(eps sum||b_k||) (slack 2)
+  double cgBound = 2. * (double)ainv1 * std::sqrt(CGEPS * bnormBlocks) + 64. * N * EPS * kappa * (double)xsInf;
+  {
+    LD e2 = 0;
+    for (int i = 0; i < N; i++) e2 += ((LD)xcg[i] - xs[i]) * ((LD)xcg[i] - xs[i]);
+    double e = (double)std::sqrt(e2);
+    if (cgRuleOk) c.check("cond-cg-vs-ref", "C15:cond:cg-solution-vs-reference:" + kcls, e <= cgBound, e, cgBound, fmt("kappa=%.3g ||b||=%.3g", kappa, bnorm));
+    else c.skip("cond:cg-vs-ref(cg-not-evaluated)");
+  }
+  // sum over the structures of the solution: what is projected on data and targets
+  std::vector<LD> xsum(n, 0);
+  for (int k = 0; k < K; k++) for (int i = 0; i < n; i++) xsum[i] += xs[(size_t)k * n + i];
+  // quadratic form z' Sigma^-1 z, Sigma^-1 = D^-1 - D^-1 [P..P] A^-1 [P..P]' D^-1   (PrecisionOpMultiConditional::evalInvCov)
+  LD quadRef = 0;
+  {
+    std::vector<LD> pxs = mulv(P, xsum);
+    for (int i = 0; i < nd; i++) quadRef += (LD)z[i] * ((LD)z[i] / (LD)sigma2 - pxs[i] / (LD)sigma2);
+  }
+  LD zDz = 0;
+  for (int i = 0; i < nd; i++) zDz += (LD)z[i] * (LD)z[i] / (LD)sigma2;
+  {
+    double qch = pch.computeQuadratic(z);
+    double tol = 256. * N * EPS * kappa * (double)zDz + 1e-300;
+    c.close("cond-quad-chol", "C15:cond:computeQuadratic:chol-vs-reference:" + kcls, qch, (double)quadRef, tol);
+    double qcg = pcg.computeQuadratic(z);
+    // |z' D^-1 [P..P] (x - x*)| <= ||b|| ||x - x*||
+    double tolcg = bnorm * cgBound + tol;
+    if (cgRuleOk) c.close("cond-quad-cg", "C15:cond:computeQuadratic:cg-vs-reference:" + kcls, qcg, (double)quadRef, tolcg);
+  }
+  // log-determinant of the data covariance: log|Sigma| = log|A| - sum_k log|Q_k| + nd log sigma2
+  LD logdetQ = 0;
+  bool chQok = true;
+  std::vector<ref::Chol> chQs;
+  for (int k = 0; k < K; k++)
+  {
+    chQs.emplace_back(dense(*blk[k].Q));
+    chQok = chQok && chQs.back().ok;
+    if (chQs.back().ok) logdetQ += chQs.back().logdet();
+  }
+  LD logdetRef = NAN;
+  if (chQok)
+  {
+    logdetRef = chA.logdet() - logdetQ + nd * std::log((LD)sigma2);
+    double ld = pch.computeTotalLogDet(1);
+    double tol = 1e-10 * (N + std::fabs((double)logdetRef)) + 256. * N * EPS * kappa;
+    c.close("cond-logdet-chol", "C15:cond:computeTotalLogDet:chol-vs-reference:" + kcls, ld, (double)logdetRef, tol);
+  }
+
+  // ---- top level API: krigingSPDE / logLikelihoodSPDE with useCholesky = 1 and 0 on a user mesh ---------
+  int nt = r.irange(1, 12);
+  std::vector<std::vector<double>> tpts;
+  for (int i = 0; i < nt; i++) tpts.push_back(r.coin(0.15) ? dpts[r.irange(0, nd - 1)] : insidePoint());
+  std::unique_ptr<Db> dbout = makeDb(ndim, tpts, nullptr);
+  ProjMatrix projOut(dbout.get(), mc.mesh.get(), -1, false);
+  Sp Po = mirror(&projOut);
+  if (Po.nr != nt) { c.skip("cond:target-outside"); return; }
+  std::vector<LD> estRef = mulv(Po, xsum);
+  double estTolChol = 64. * N * EPS * kappa * K * (double)xsInf + 1e-300;
+  for (int mode = 1; mode >= 0; mode--)
+  {
+    int ncol0 = dbout->getColumnNumber();
+    (void)krigingSPDE(dbin.get(), dbout.get(), model.get(), nullptr, true, false, mc.mesh.get(), mode, SPDEParam(), 0, false, false);
+    int ncol1 = dbout->getColumnNumber();
+    std::string km = std::string("C15:krigingSPDE:") + (mode ? "chol" : "cg") + "-vs-reference:" + kcls;
+    if (!c.truth("krig-ran", std::string("C15:krigingSPDE:no-output:") + (mode ? "chol" : "cg") + ":" + cls, ncol1 == ncol0 + 1)) continue;
+    VectorDouble est = dbout->getColumnByColIdx(ncol1 - 1);
+    double e = 0;
+    for (int i = 0; i < nt; i++) e = std::max(e, std::fabs((double)((LD)est[i] - estRef[i])));
+    // each estimate is sum_k (convex combination of x_k): |error| <= sum_k ||x_k - x_k*||_inf <= sqrt(K) ||x - x*||_2
+    if (mode) c.check("krig-chol-vs-ref", km, e <= estTolChol, e, estTolChol);
+    else if (cgRuleOk) c.check("krig-cg-vs-ref", km, e <= std::sqrt((double)K) * cgBound, e, std::sqrt((double)K) * cgBound, fmt("kappa=%.3g ||b||=%.3g", kappa, bnorm));
+    else c.skip("krig:cg-vs-ref(cg-not-evaluated)");
+  }
+  // krigingSPDENew (SPDEOpMatrix / SPDEOp + LinearOpCGSolver<SPDEOp>: Eigen CG, tolerance 1e-5, 1000 iterations).
+  // Noise: buildInvNugget -> 1 / max(nugget, EpsNugget * total sill incl. nugget): same sigma2 as above except in the
+  // "below the floor" nugget class, which is skipped here. MATERN only (PrecisionOpMulti::_isValidModel).
+  if (newApi)
+  {
+    VectorMeshes meshes = {mc.mesh.get()};
+    for (int mode = 1; mode >= 0; mode--)
+    {
+      if (mode == 0 && !spdeOpOk) { c.skip("krignew:cg(operator-already-refuted)"); continue; }
+      // target Db = the one already holding the krigingSPDE results (they carry a Z locator; see the end of this function)
+      VectorDouble est = krigingSPDENew(dbin.get(), dbout.get(), model.get(), meshes, mode, false);
+      std::string km = std::string("C15:krigingSPDENew:") + (mode ? "chol" : "cg") + "-vs-reference:" + kcls;
+      if (!c.truth("krignew-ran", std::string("C15:krigingSPDENew:no-output:") + (mode ? "chol" : "cg") + ":" + cls, (int)est.size() == nt, fmt("size=%d nt=%d", (int)est.size(), nt)))
+        continue;
+      double e = 0;
+      for (int i = 0; i < nt; i++) e = std::max(e, std::fabs((double)((LD)est[i] - estRef[i])));
+      if (mode) c.check("krignew-chol-vs-ref", km, e <= estTolChol, e, estTolChol);
+      else
+      {
+        // Eigen::ConjugateGradient stops on ||r|| <= tol ||b|| (tol = 1e-5 set by krigingSPDENew): ||x - x*|| <= ||A^-1|| tol ||b||, slack 2.
+        // Evaluated only when the iteration cap (1000) cannot bite: kappaUb <= 1e6.
+        if (kappaUb > 1e6) { c.skip("krignew:cg-illcond(kappaUb>1e6)"); continue; }
+        double bound = 2. * (double)ainv1 * 1e-5 * bnorm + estTolChol;
+        c.check("krignew-cg-vs-ref", km, e <= bound, e, bound, fmt("kappa=%.3g kappaUb=%.3g ||b||=%.3g est0=%.10g ref0=%.10g", kappa, kappaUb, bnorm, est[0], (double)estRef[0]));
+      }
+    }
+  }
+  // log-likelihood: -0.5 (log|Sigma| + z' Sigma^-1 z + nd log 2 pi)
+  if (chQok)
+  {
+    LD llRef = -0.5L * (logdetRef + quadRef + nd * std::log(2 * (LD)M_PI));
+    law_set_random_seed(1234 + (int)(r.next() % 100000));
+    double ll1 = logLikelihoodSPDE(dbin.get(), model.get(), nullptr, mc.mesh.get(), 1, 1, SPDEParam(), false);
+    double tol = 1e-10 * (N + std::fabs((double)llRef)) + 256. * N * EPS * kappa * (1 + (double)zDz);
+    c.close("loglik-chol-vs-ref", "C15:logLikelihoodSPDE:chol-vs-reference:" + kcls, ll1, (double)llRef, tol);
+    // matrix-free mode: the log-determinants are stochastic trace estimates (Hutchinson with nbsimu Gaussian vectors,
+    // PrecisionOpMultiConditional::computeLogDetOp / PrecisionOp::getLogDeterminant): agreement is only required within
+    // 6 Monte-Carlo standard deviations sqrt(2 ||log M||_F^2 / nbsimu) for M = A and M = P_k(S_k)  [+ the CG bound on the quadratic term]
+    if (N <= 60)
+    {
+      int nbsimu = 20;
+      double ll0 = logLikelihoodSPDE(dbin.get(), model.get(), nullptr, mc.mesh.get(), 0, nbsimu, SPDEParam(), false);
+      std::vector<LD> evA = ref::eigsym(A);
+      LD fA = 0, sdP = 0;
+      for (LD v : evA) fA += std::log(v) * std::log(v);
+      for (int k = 0; k < K; k++)
+      {
+        // log P(S) = log(Lambda^-1 Q Lambda^-1): eigenvalues through the symmetric matrix Lambda^-1 Q Lambda^-1
+        Mat Qn = dense(*blk[k].Q);
+        std::vector<double> lam = blk[k].qmf->getShiftOp()->getLambdas().getVector();
+        for (int i = 0; i < n; i++) for (int j = 0; j < n; j++) Qn(i, j) /= (LD)lam[i] * (LD)lam[j];
+        for (int i = 0; i < n; i++) for (int j = 0; j < i; j++) { LD v = 0.5 * (Qn(i, j) + Qn(j, i)); Qn(i, j) = Qn(j, i) = v; }
+        std::vector<LD> evP = ref::eigsym(Qn);
+        LD fP = 0;
+        for (LD v : evP) fP += std::log(v) * std::log(v);
+        sdP += std::sqrt(2 * fP / nbsimu);
+      }
+      double sdMC = (double)(std::sqrt(2 * fA / nbsimu) + sdP);
+      double tolMC = 0.5 * (6 * sdMC + bnorm * cgBound) + 1e-3 * (1 + std::fabs((double)llRef)) + tol;
+      bool okll = std::fabs(ll0 - (double)llRef) <= tolMC;
+      std::string key = "C15:logLikelihoodSPDE:cg-vs-reference:" + kcls;
+      // diagnosis: the value predicted when computeLogDetOp() contributes 0 (Chebychev::addEvalOp is an empty stub)
+      double llPred0 = (double)(llRef + 0.5L * chA.logdet());
+      double tolP = 0.5 * (6 * (double)sdP + bnorm * cgBound) + 1e-3 * (1 + std::fabs(llPred0)) + tol;
+      if (!okll && std::fabs(ll0 - llPred0) <= tolP) key = "C15:PrecisionOpMultiConditional::computeLogDetOp:contributes-0";
+      if (cgRuleOk)
+        c.check("loglik-cg-vs-ref", key, okll, std::fabs(ll0 - (double)llRef), tolMC,
+                fmt("cg=%.10g ref=%.10g chol=%.10g ; value predicted with log|Q+A'A/s2| := 0 is %.10g ; sdMC(logdet)=%.3g N=%d nd=%d", ll0, (double)llRef, ll1, llPred0, sdMC, N, nd));
+    }
+  }
+
+  // LAST statement of the case on purpose (it aborts in this build: Eigen assertion in ProjMultiMatrix::_addMesh2point):
+  // krigingSPDENew on a target Db that holds coordinates only. ProjMultiMatrix::createFromDbAndMeshes(dbout) sizes itself on the
+  // number of Z variables of dbout (0 here), so the output projection is empty and mesh2point() multiplies a 0-column matrix.
+  if (newApi && !AVOID_KRIGNEW_TARGET_WITHOUT_Z && r.coin(0.2))
+  {
+    VectorMeshes meshes = {mc.mesh.get()};
+    std::unique_ptr<Db> dbfresh = makeDb(ndim, tpts, nullptr);
+    c.probe("krignew.target-without-Z");
+    VectorDouble est = krigingSPDENew(dbin.get(), dbfresh.get(), model.get(), meshes, 1, false);
+    bool ok = (int)est.size() == nt;
+    double e = 0;
+    if (ok) for (int i = 0; i < nt; i++) e = std::max(e, std::fabs((double)((LD)est[i] - estRef[i])));
+    c.check("krignew-target-without-Z", "C15:krigingSPDENew:target-db-without-Z-variable", ok && e <= estTolChol, e, estTolChol, fmt("size=%d nt=%d", (int)est.size(), nt));
+  }
+}
+
 static void run_case(Rng& r, Ctx& c)
 {
   // ---- 1. mesh, model -----------------------------------------------------------------------------
@@ -680,6 +1320,7 @@ static void run_case(Rng& r, Ctx& c)
   defineDefaultSpace(ESpaceType::RN, ndimPeek);
   MeshCase mc = genMesh(r, c);
   ModelCase mo = genModel(r, mc);
+  if (mc.kind == MK_TURBO_COVA) finishCovaMesh(r, mc, mo);
   const int ndim = mc.ndim;
   const MeshMirror& mm = mc.mm;
   const int n = mm.nv;
@@ -724,6 +1365,48 @@ static void run_case(Rng& r, Ctx& c)
   for (double v : lam) if (!(v > 0) || !std::isfinite(v)) lamOk = false;
   if (!c.truth("lambda-positive", "C15:shiftop:lambda-nonpositive:" + cls, lamOk)) return;
   c.truth("two-shiftops-agree", "C15:shiftop:nondeterministic:" + cls, lam == lamCs);
+  // algebraic invariants of the shift operator S = C^-1/2 G C^-1/2 (ShiftOpCs::_buildS: "_S->prodNormDiagVecInPlace(_TildeC, -3)"):
+  // G is a stiffness matrix (rows sum to zero because the shape functions sum to one) => S * sqrt(TildeC) = 0; S symmetric; x'Sx >= 0
+  {
+    std::vector<double> tc = SV(qmf.getShiftOp()->getTildeC());
+    bool tcOk = (int)tc.size() == n;
+    for (double v : tc) if (!(v > 0)) tcOk = false;
+    if (c.truth("tildeC-positive", "C15:shiftop:TildeC-nonpositive:" + cls, tcOk))
+    {
+      std::vector<LD> sq(n);
+      for (int i = 0; i < n; i++) sq[i] = std::sqrt((LD)tc[i]);
+      std::vector<LD> y = mulv(S, sq), m = mulv(S, sq, false, true);
+      std::vector<double> yd(n);
+      std::vector<LD> zero(n, 0);
+      for (int i = 0; i < n; i++) yd[i] = (double)y[i];
+      double q = ratioVec(yd, zero, m, 1024. * (nnzS + 2)); // element matrices go through (M'M)^-1: conditioning of slivers / anisotropy included in the constant
+      c.check("S-nullspace", "C15:shiftop:S-sqrtTildeC-not-zero:" + cls, q <= 1, q, 1);
+      std::map<std::pair<int, int>, double> ent;
+      std::vector<double> sd(n, 0.);
+      for (size_t k = 0; k < S.v.size(); k++) { ent[{S.r[k], S.c[k]}] += S.v[k]; if (S.r[k] == S.c[k]) sd[S.r[k]] += S.v[k]; }
+      double worst = 0;
+      for (auto& kv : ent)
+      {
+        int i = kv.first.first, j = kv.first.second;
+        if (i >= j) continue;
+        auto it   = ent.find({j, i});
+        double tv = it == ent.end() ? 0. : it->second;
+        double qq = std::fabs(kv.second - tv) / (64. * EPS * std::sqrt(std::fabs(sd[i] * sd[j])) + 1e-300);
+        if (!(qq <= worst)) worst = qq;
+      }
+      c.check("S-symmetric", "C15:shiftop:S-asymmetric:" + cls, worst <= 1, worst, 1);
+      std::vector<LD> xr(n);
+      for (auto& v : xr) v = r.normal();
+      std::vector<LD> sx = mulv(S, xr), sxa;
+      LD quad = 0, quada = 0;
+      for (int i = 0; i < n; i++) { quad += xr[i] * sx[i]; }
+      std::vector<LD> xa(n);
+      for (int i = 0; i < n; i++) xa[i] = std::fabs(xr[i]);
+      sxa = mulv(S, xa, false, true);
+      for (int i = 0; i < n; i++) quada += xa[i] * sxa[i];
+      c.check("S-psd", "C15:shiftop:S-not-psd:" + cls, quad >= -64. * nnzS * EPS * quada, (double)std::max((LD)0, -quad), (double)(64. * nnzS * EPS * quada));
+    }
+  }
 
   // ---- 3. oracle (a): every entry point vs own Q.x ------------------------------------------------
   auto makeVec = [&](int kind) {
@@ -888,10 +1571,71 @@ static void run_case(Rng& r, Ctx& c)
     c.check("solve-residual-chol", "C15:PrecisionOpCs::evalInverse:residual:" + cls, q <= 1, q, 1);
   }
 
+  // ---- 5b. other matrix-free entry points ------------------------------------------------------------
+  if (n <= 80)
+  { // extractDiag: explicit matrix, matrix-free (ClassicalPolynomial::evalOpByRank) vs the diagonal read from Q
+    std::vector<LD> dq(n), bd(n);
+    for (int i = 0; i < n; i++) { dq[i] = qdiag[i]; bd[i] = std::fabs(qdiag[i]); }
+    double q1 = ratioVec(SV(qcs.extractDiag()), dq, bd, 4);
+    // bound for the polynomial evaluation: diagonal of Lambda P(|S|) Lambda
+    std::vector<LD> bdm(n);
+    for (int i = 0; i < n; i++)
+    {
+      std::vector<LD> e(n, 0);
+      e[i] = 1;
+      bdm[i] = applyLPL(S, lam, mo.coef, e, true)[i];
+    }
+    double q2 = ratioVec(SV(qmf.extractDiag()), dq, bdm, CF);
+    c.check("extractDiag", "C15:extractDiag:cs:" + cls, q1 <= 1, q1, 1);
+    c.check("extractDiag", "C15:extractDiag:matfree:" + cls, q2 <= 1, q2, 1);
+  }
+  if (r.coin(c.thorough() ? 0.25 : 0.12))
+  { // PrecisionOp::evalInverse (matrix-free) = Lambda^-1 f(S) Lambda^-1 b, f = Chebychev fit of 1/P on [0, ||S||_1].
+    // Documented accuracy of the fit (Chebychev::fit -> _countCoeffs, tol = EPSILON5): |f^2 - (1/P)^2| < tol ((1/P)^2 + EPSILON2)
+    // at the sampled abscissae, i.e. |f - 1/P| <= sqrt(tol * EPSILON2) = 3.2e-4 where 1/P is small, ~5e-6 where 1/P ~ 1
+    // (P(0) >= 0.2 here so 1/P <= 5). It is an approximation of the FUNCTION, not a residual criterion, so the relation asserted is
+    // the differential one: || Lambda (x_matfree - x_chol) ||_2 <= 4 * 3.2e-4 * || Lambda^-1 b ||_2  (x_chol checked by its residual above)
+    std::vector<double> b = makeVec(0), x(n, 0.), xc(n, 0.);
+    qmf.evalInverse(constvect(b), x);
+    qcs.evalInverse(constvect(b), xc);
+    LD dn = 0, bn = 0;
+    bool fin = true;
+    for (int i = 0; i < n; i++)
+    {
+      if (!std::isfinite(x[i])) fin = false;
+      dn += ((LD)lam[i] * ((LD)x[i] - (LD)xc[i])) * ((LD)lam[i] * ((LD)x[i] - (LD)xc[i]));
+      bn += ((LD)b[i] / (LD)lam[i]) * ((LD)b[i] / (LD)lam[i]);
+    }
+    double rel = fin ? (double)std::sqrt(dn / bn) : INFINITY;
+    c.check("evalInverse-chebychev-vs-chol", "C15:PrecisionOp::evalInverse(Chebychev)-vs-Cholesky:" + cls, rel <= 4 * 3.2e-4, rel, 4 * 3.2e-4);
+  }
+
   // ---- 6. oracle (c): projection of points on the mesh --------------------------------------------
   {
     std::string mcls = fmt("%s:ndim=%d", MKN[mc.kind], ndim);
     checkProjection(r, c, mc, mc.mesh.get(), mm, mcls, mc.turboTwin.get());
+  }
+
+  // ---- 7. oracles (d), (e): conditional precision, solves, kriging, likelihood -----------------------
+  {
+    std::vector<Block> blk = {{&qcs, &qmf, &Q, &mo}};
+    // second structure on the same mesh (SPDE handles a sum of Matern/Markov structures + nugget): 30 % of the small meshes
+    std::unique_ptr<ModelCase> mo2;
+    std::unique_ptr<PrecisionOpCs> qcs2;
+    std::unique_ptr<PrecisionOp> qmf2;
+    Sp Q2;
+    if (n <= 300 && r.coin(0.3))
+    {
+      mo2.reset(new ModelCase(genModel(r, mc)));
+      qcs2.reset(new PrecisionOpCs(mc.mesh.get(), mo2->cova, false));
+      qmf2.reset(new PrecisionOp(mc.mesh.get(), mo2->cova, false));
+      if (qcs2->getQ() != nullptr && qcs2->getSize() == n && qmf2->getSize() == n)
+      {
+        Q2 = mirror(qcs2->getQ());
+        blk.push_back({qcs2.get(), qmf2.get(), &Q2, mo2.get()});
+      }
+    }
+    checkConditional(r, c, mc, blk, cls);
   }
 }
 
